@@ -837,6 +837,7 @@ func nrListed(entries []*m.S, n int) int {
 //@   store relNowTime %= requires nowRemainderReduced: relNowTime < wrapDur
 //@   store relNowTime %= requires rolledInstantUnchanged: specNowTicks(a, rep, old(wt), atoMS) == wt.nowWraps*int(wrapDur) + int(relNowTime)
 //@   store relNowIdx := requires instantSplit: specNowTicks(a, rep, old(wt), atoMS) == wt.nowWraps*int(wrapDur) + int(relNowTime) && relNowTime < wrapDur
+//@   store relNowIdx = requires someSegmentFinished: relNowTime >= segs[0].EndTime ==> relNowIdx >= 0
 //@   store relNowIdx = requires lastFinishedOrWrap: relNowIdx == nrSegs-1 || (relNowIdx >= -1 && relNowIdx < nrSegs && (relNowIdx >= 0 ==> segs[relNowIdx].EndTime <= relNowTime) && (relNowIdx+1 < nrSegs ==> segs[relNowIdx+1].EndTime > relNowTime))
 //@   exit 2 requires edgeNr: lsi.nr == max(se.startNr, nowNr)
 //@   exit 2 requires edgeHasEnded: segs[0].StartTime == 0 ==> specEnd(a, rep, nowNr) <= specNowTicks(a, rep, old(wt), atoMS)
